@@ -148,6 +148,7 @@ mul_small!(c01_mul_32x31, 32, 31);
 #[kani::proof]
 #[kani::unwind(10)]
 #[kani::stub(under_model, under_model_yes)]
+#[kani::stub(arcu::epoch_counters::with_thread_local_epoch_counter, st_epoch)]
 #[kani::stub(<dashu::integer::IBig as std::ops::Mul<dashu::integer::IBig>>::mul, rec_op_vv)]
 fn c01_mul_overflow_delegates() {
     let mut arena_v = crate::arena::verif_arena_common::BareArena::new();
@@ -280,6 +281,7 @@ fn shl_absent(_l: Number, _r: Number, _a: &mut Arena) -> Result<Number, MachineS
 #[kani::proof]
 #[kani::unwind(10)]
 #[kani::stub(under_model, under_model_yes)]
+#[kani::stub(arcu::epoch_counters::with_thread_local_epoch_counter, st_epoch)]
 #[kani::stub(zero_divisor_eval_error, st_zero)]
 #[kani::stub(undefined_eval_error, st_undef)]
 #[kani::stub(numerical_type_error, st_type)]
@@ -305,6 +307,7 @@ fn c01_shr_nonneg_count() {
 #[kani::proof]
 #[kani::unwind(10)]
 #[kani::stub(under_model, under_model_yes)]
+#[kani::stub(arcu::epoch_counters::with_thread_local_epoch_counter, st_epoch)]
 #[kani::stub(zero_divisor_eval_error, st_zero)]
 #[kani::stub(undefined_eval_error, st_undef)]
 #[kani::stub(numerical_type_error, st_type)]
@@ -365,6 +368,7 @@ fn sibling_rec(l: Number, r: Number, _a: &mut Arena) -> Result<Number, MachineSt
 #[kani::proof]
 #[kani::unwind(10)]
 #[kani::stub(under_model, under_model_yes)]
+#[kani::stub(arcu::epoch_counters::with_thread_local_epoch_counter, st_epoch)]
 #[kani::stub(shl, sibling_rec)]
 fn c01_shr_negative_count_forwards() {
     let mut arena_v = crate::arena::verif_arena_common::BareArena::new();
@@ -381,6 +385,7 @@ fn c01_shr_negative_count_forwards() {
 #[kani::proof]
 #[kani::unwind(10)]
 #[kani::stub(under_model, under_model_yes)]
+#[kani::stub(arcu::epoch_counters::with_thread_local_epoch_counter, st_epoch)]
 #[kani::stub(shr, sibling_rec)]
 fn c01_shl_negative_count_forwards() {
     let mut arena_v = crate::arena::verif_arena_common::BareArena::new();
